@@ -310,6 +310,9 @@ class V:
         if o is None:
             return False if what == "==" else True if what == "!=" else NotImplemented
         r = self._bin(o, fn, what)
+        if r is not NotImplemented and self.inf is not None and _is_posinf(self) and what in (">", ">="):
+            # +inf exceeds every finite bound
+            r = V(z3.Or(self.inf, r.t), r.axes, r.series, r.nan, None)
         # comparisons with NaN are False (numpy): account for it where a NaN may be present
         if r is not NotImplemented and r.nan is not None:
             r = V(z3.And(z3.Not(r.nan), r.t) if what != "!=" else z3.Or(r.nan, r.t), r.axes, r.series)
@@ -369,6 +372,13 @@ def _infeasible(cond):
         s.add(f)
     s.add(cond)
     return s.check() == z3.unsat
+
+
+def _is_posinf(v):
+    m = v.meta
+    if isinstance(m, str):
+        return m == "posinf"
+    return isinstance(m, tuple) and len(m) == 2 and isinstance(m[1], dict) and bool(m[1].get("posinf"))
 
 
 def _b(t):
